@@ -22,7 +22,7 @@ Fixpoint law_trace (sp : spec) (ops : list op) (b : obs) (rest : list obs) : boo
   match ops, rest with
   | [], [] => true
   | o :: ops', a :: rest' =>
-      (match o with OReq r _ => law_step sp r b a | OFire => law_step sp timer_req b a | _ => true end) && law_trace sp ops' a rest'
+      (match o with OReq r _ => law_step true sp r b a | OFire => law_step false sp timer_req b a | _ => true end) && law_trace sp ops' a rest'
   | _, _ => false
   end.
 
@@ -30,7 +30,7 @@ Fixpoint law_trace (sp : spec) (ops : list op) (b : obs) (rest : list obs) : boo
 Fixpoint law_trace_flags (sp : spec) (ops : list op) (b : obs) (rest : list obs) : list Z :=
   match ops, rest with
   | o :: ops', a :: rest' =>
-      (match o with OReq r _ => eBool (law_step sp r b a) | OFire => eBool (law_step sp timer_req b a) | _ => [1] end) ++ law_trace_flags sp ops' a rest'
+      (match o with OReq r _ => eBool (law_step true sp r b a) | OFire => eBool (law_step false sp timer_req b a) | _ => [1] end) ++ law_trace_flags sp ops' a rest'
   | _, _ => []
   end.
 
